@@ -251,6 +251,23 @@ unsafe fn observe<'a>(mgr: *mut c_void, c: CB, nat: BddPtr<'a>, want: TT, n: usi
     if r1.to_bits() != r2.to_bits() {
         fail("wmc-real", format!("bdd_wmc = {}, native {}", r1, r2), rep);
     }
+    // a weight changed in place between two counts over the same table (and changed back)
+    if n >= 1 {
+        let old = wmc_param_f64_var_weight(w.cf, 0);
+        let (lo0, hi0) = (weight_f64_lo(old), weight_f64_hi(old));
+        wmc_param_f64_set_weight(w.cf, 0, 0.125, 0.875);
+        let mut nf2 = w.nf.clone();
+        nf2.set_weight(VarLabel::new(0), RealSemiring(0.125), RealSemiring(0.875));
+        let (a1, a2) = (bdd_wmc(c, w.cf), nat.unsmoothed_wmc(&nf2).0);
+        if a1.to_bits() != a2.to_bits() {
+            fail("wmc-real", format!("after wmc_param_f64_set_weight(x0, 0.125, 0.875): bdd_wmc = {}, native {}", a1, a2), rep);
+        }
+        wmc_param_f64_set_weight(w.cf, 0, lo0, hi0);
+        let (b1, b2) = (bdd_wmc(c, w.cf), nat.unsmoothed_wmc(&w.nf).0);
+        if b1.to_bits() != b2.to_bits() {
+            fail("wmc-real", format!("after restoring the weight of x0: bdd_wmc = {}, native {}", b1, b2), rep);
+        }
+    }
     let (c1, c2) = (bdd_wmc_complex(c, w.cc), nat.unsmoothed_wmc(&w.nc));
     if c1 != c2 {
         fail("wmc-complex", format!("bdd_wmc_complex = {}, native {}", c1, c2), rep);
